@@ -392,7 +392,7 @@ def proof_check(name, timeout=900):
         if p.returncode != 0 or not m:
             raise MachineryError(f"proof {name}.tla is not accepted by tlapm (a defect of the proof, not of the code):\n" + out[-2000:])
         nobl = int(m.group(1))
-        p = subprocess.run(["java", "-cp", core.TLA_CP, "tlc2.TLC", "-workers", "4", "-metadir", os.path.join(scratch, "meta"),
+        p = subprocess.run(["java", f"-Djava.io.tmpdir={scratch}", "-cp", core.TLA_CP, "tlc2.TLC", "-workers", "4", "-metadir", os.path.join(scratch, "meta"),
                             "-config", f"MC{name}.cfg", f"MC{name}.tla"], cwd=scratch, capture_output=True, text=True, timeout=timeout)
         if "No error has been found" not in p.stdout:
             raise MachineryError(f"TLC sanity check of {name}.tla failed:\n" + p.stdout[-2000:])
